@@ -194,22 +194,35 @@ Proof.
   split; apply Rltb_false; lra.
 Qed.
 
-(* ---------- UnitQuaternion.AngVec: the axis is NOT normalised (defect of the code, mirrored by the trace) ----------
-   full statement (false):  forall th v, UnitQ (tr_UQ_AngVec_rad Rops th v)   -- the property for axes of any length *)
-Theorem C01_UQ_AngVec_refuted : exists th v, 1/1000 <= sqrt (normsq3 Rops v) /\ ~ UnitQ (tr_UQ_AngVec_rad Rops th v).
+(* ---------- UnitQuaternion.AngVec: (cos(th/2), sin(th/2) v/|v|) -- the axis is normalised (repaired in /repo by
+   50fbf86; before, the trace used v as given and the statement below was refuted by th = pi, v = (2,0,0)) ---------- *)
+Lemma C01_UQ_AngVec : forall th v,
+  (pc_tr_UQ_AngVec_rad Rops th v -> UnitQ (tr_UQ_AngVec_rad Rops th v)) /\
+  (pc_tr_UQ_AngVec_deg Rops th v -> UnitQ (tr_UQ_AngVec_deg Rops th v)) /\
+  (pc_tr_UQ_AngVec_zero Rops th v -> UnitQ (tr_UQ_AngVec_zero Rops th v)).
+Proof. conjs; unit_tr. Qed.
+Lemma C01_UQ_AngVec_domain_on_path : forall th v, 1/1000 <= sqrt (normsq3 Rops v) ->
+  pc_tr_UQ_AngVec_rad Rops th v /\ pc_tr_UQ_AngVec_deg Rops th v.
 Proof.
-  exists PI, (2, 0, 0). split.
-  - lin_simpl. replace (2*2+0*0+0*0) with (2*2) by ring. rewrite sqrt_square; lra.
-  - autounfold with smgen. sm_simpl. unfold UnitQ.
-    replace (IZR 1 / IZR 2 * PI) with (PI/2) by field. rewrite cos_PI2, sin_PI2. lra.
+  intros th v H. destruct_tuples. autounfold with smgen smlin in *. sm_simpl.
+  repeat split; first [ apply Rltb_true | apply Rltb_false ]; lra.
 Qed.
-Print Assumptions C01_UQ_AngVec_refuted.
-Theorem C01_UQ_AngVec_partial : forall th v, normsq3 Rops v = 1 ->
-  UnitQ (tr_UQ_AngVec_rad Rops th v) /\ UnitQ (tr_UQ_AngVec_deg Rops th v).
-Proof. intros th v H. destruct_tuples. autounfold with smgen smlin in *. sm_simpl. split; cs_gen; unfold UnitQ; nsatz. Qed.
-Print Assumptions C01_UQ_AngVec_partial.
-Example C01_UQ_AngVec_partial_nonvacuous : normsq3 Rops (0, 3/5, 4/5) = 1.
-Proof. lin_simpl. lra. Qed.
+(* full strength: every axis of the property's domain (any length >= 1e-3), every angle, both units; zero axis -> identity *)
+Theorem C01_UQ_AngVec_closed : forall th v,
+  (1/1000 <= sqrt (normsq3 Rops v) -> UnitQ (tr_UQ_AngVec_rad Rops th v) /\ UnitQ (tr_UQ_AngVec_deg Rops th v)) /\
+  (pc_tr_UQ_AngVec_zero Rops th v -> UnitQ (tr_UQ_AngVec_zero Rops th v)).
+Proof.
+  intros th v. pose proof (C01_UQ_AngVec th v) as (A & B & C). split; [|exact C].
+  intros H. destruct (C01_UQ_AngVec_domain_on_path th v H). split; auto.
+Qed.
+Print Assumptions C01_UQ_AngVec_closed.
+(* the former counterexample is inside the domain *)
+Example C01_UQ_AngVec_nonvacuous : 1/1000 <= sqrt (normsq3 Rops (2, 0, 0)) /\ UnitQ (tr_UQ_AngVec_rad Rops PI (2, 0, 0)).
+Proof.
+  assert (H : 1/1000 <= sqrt (normsq3 Rops (2, 0, 0))) by
+    (lin_simpl; replace (2*2+0*0+0*0) with (2*2) by ring; rewrite sqrt_square; lra).
+  split; [exact H|]. apply (C01_UQ_AngVec_closed PI (2,0,0)). exact H.
+Qed.
 
 (* ---------- operators through the UnitQuaternion class: * / inv ** re-normalise their result ---------- *)
 Lemma C01_UQ_mul_div_inv : forall p q,
